@@ -148,3 +148,26 @@ Proof.
   - unfold mk_ext_nv, mk_simple_nv. rewrite H. destruct (negb (mem_bytes ty (enum_values EXTENDED_OBJECT_TYPES))); [left|right]; reflexivity.
   - intros. unfold mk_q_nv. rewrite H. destruct (negb (mem_bytes ty (enum_values OBJECT_TYPES))); [left|right]; reflexivity.
 Qed.
+
+(* FIXED 8fc7b57: a line number held by a bool was printed with str(): "True" *)
+Definition bool_line_witness : qualified := mkQ S_cnt (repeat 0 20) None None None None (Some (1%Z, None)).
+
+Lemma P_C08_bool_print_refuted_old :
+  wf_q 4300 bool_line_witness /\
+  print_q_str_old 4300 true false bool_line_witness = Ok (zero_id ++ bs ";lines=True") /\
+  lang_q (zero_id ++ bs ";lines=True") = false /\
+  parse_q 4300 (zero_id ++ bs ";lines=True") = Err EValidation /\
+  print_q 4300 bool_line_witness = Ok (zero_id ++ bs ";lines=1") /\
+  parse_q 4300 (zero_id ++ bs ";lines=1") = Ok bool_line_witness /\
+  print_q_str_old 4300 false false bool_line_witness = print_q 4300 bool_line_witness /\
+  print_q_str_old 4300 false false ex_q = print_q 4300 ex_q.
+Proof.
+  split.
+  - unfold wf_q, bool_line_witness. cbn [q_ty q_oid q_visit q_anchor q_path q_lines].
+    split; [vm_compute; tauto|]. split; [reflexivity|]. split; [reflexivity|].
+    split; [intros c E; discriminate|]. split; [intros c E; discriminate|]. split; [intros p E; discriminate|].
+    intros a b E. inversion E; subst. split.
+    + split; [discriminate | reflexivity].
+    + intros b' E'. discriminate.
+  - repeat split; vm_compute; reflexivity.
+Qed.
